@@ -588,14 +588,15 @@ package loadbalancer
 
 //@ func (*WebSocketPool).Put
 //@   props C20 C12
+//@   mode seq, mon
 //@   requires unlocked(p.mu) && poolsOK(p)
-//@   ensures kept: poolsOK(p)
+//@   ensures seq: kept: poolsOK(p)
 //@   ensures nil_refused: conn == nil ==> !result
-//@   ensures never_more_than_max_idle: has(p.pools, backend) ==> len(p.pools[backend].idle) <= max(p.maxIdle, 0)
-//@   ensures pooled: result ==> has(p.pools, backend) && len(p.pools[backend].idle) >= 1
+//@   ensures seq: never_more_than_max_idle: has(p.pools, backend) ==> len(p.pools[backend].idle) <= max(p.maxIdle, 0)
+//@   ensures seq: pooled: result ==> has(p.pools, backend) && len(p.pools[backend].idle) >= 1
 //@             && p.pools[backend].idle[len(p.pools[backend].idle) - 1].conn == conn
-//@   ensures overflow_is_closed: !result && conn != nil ==> conn.closed
-//@   ensures earlier_entries_kept: old(has(p.pools, backend)) ==> p.pools[backend] == old(p.pools[backend]) && len(p.pools[backend].idle) >= old(len(p.pools[backend].idle))
+//@   ensures seq: overflow_is_closed: !result && conn != nil ==> conn.closed
+//@   ensures seq: earlier_entries_kept: old(has(p.pools, backend)) ==> p.pools[backend] == old(p.pools[backend]) && len(p.pools[backend].idle) >= old(len(p.pools[backend].idle))
 //@             && (forall i int :: {p.pools[backend].idle[i]} 0 <= i && i < old(len(p.pools[backend].idle)) ==> p.pools[backend].idle[i].conn == old(p.pools[backend].idle[i].conn))
 //@   modifies mapof(p.pools), connPool.idle, connPool.active, connPool.backend, connPool.idleTimeout, elems(p.pools[backend].idle), net.Conn.closed
 
@@ -635,9 +636,16 @@ package loadbalancer
 // filters a snapshot outside the lock and writes it back later (losing concurrent Get/Put) fails.
 // Lock order of the pool: the map lock comes before any per-backend lock (Shutdown holds both in that order).
 //@ lockorder WebSocketPool.mu < connPool.mu
+// "closes everything it holds on shutdown", under every interleaving: once Shutdown has emptied a per-backend
+// pool and dropped it from the map the pool is detached - nobody will ever close what is put into it later, so
+// a detached pool must stay empty. (Put looks the pool up under the map lock and appends under the pool lock
+// later: a Shutdown in between detaches the pool it is about to append to.)
+//@ ghost field connPool.detached Bool
 //@ monitor connPool.mu c
-//@   guards idle, active
+//@   guards idle, active, detached, closed
 //@   rely entries_are_connections: idleOK(c)
+//@   inv a_detached_pool_holds_nothing: c.detached ==> len(c.idle) == 0
+//@   inv detached_pools_are_marked: c.detached ==> c.closed
 //@ func (*WebSocketPool).cleanupBackend
 //@   props C20 C12
 //@   mode seq, mon
@@ -875,6 +883,7 @@ package loadbalancer
 //@   modifies net.Conn.closed
 //@ func (*WebSocketPool).Shutdown
 //@   props C19 C20
+//@   ghost release mu :: pool.detached := true
 //@   requires unlocked(p.mu) && poolsOK(p) && noConnPoolLocks() && allIdleOK()
 //@   ensures pool_emptied: len(p.pools) == 0 && p.pools != nil
 //@   modifies p.pools, key:map[string]*loadbalancer.connPool, connPool.idle, net.Conn.closed
